@@ -145,7 +145,7 @@ func c03Words(maxLen int, needSelect bool, visit func(word []int)) {
 		if len(word) == maxLen {
 			return
 		}
-		for i := range syncSigma {
+		for i := 0; i < syncEnumerated(); i++ {
 			word = append(word, i)
 			rec()
 			word = word[:len(word)-1]
@@ -176,7 +176,7 @@ func TestVerif_C03(t *testing.T) {
 	reduced := c03Configs(0)
 	ev.Bound("configs_full", len(full))
 	ev.Bound("configs_reduced", len(reduced))
-	ev.Bound("alphabet", len(syncSigma))
+	ev.Bound("alphabet", syncEnumerated())
 	lenDefault, lenSched, dev := 3, 2, 2
 	if ev.Thorough() {
 		lenDefault, lenSched, dev = 4, 3, 3
@@ -284,6 +284,35 @@ func TestVerif_C03(t *testing.T) {
 		{"SELECT0", "INCR", "INCR", "INCR", "INCR", "INCR", "select2", "INCR"},
 		{"SELECT1", "SET", "SELECT1", "SET", "SELECT0", "PING", "PING", "APPEND"},
 		{"select2", "MULTI", "INCR", "EXEC", "MULTI", "APPEND", "EXEC", "NEWLINE", "DEL"},
+	}
+	// a connection that keeps Send arguments until Flush (cluster target) and log.level = debug:
+	// directed streams with a long argument, and all streams up to the all-schedules length
+	long := [][]string{
+		{"SELECT0", "SETLONG", "INCR"},
+		{"SELECT1", "MULTI", "SETLONG", "APPEND", "EXEC", "SETLONG"},
+		{"select2", "SETLONG", "SETLONG", "DEL"},
+	}
+	for _, cfg := range reduced {
+		if cfg.DBFilter != 0 && !ev.Thorough() {
+			continue
+		}
+		for _, bd := range [][2]bool{{true, true}, {true, false}, {false, true}} {
+			cfg.Batched, cfg.Debug = bd[0], bd[1]
+			for _, d := range long {
+				var word []int
+				for _, s := range d {
+					word = append(word, sym(s))
+				}
+				one(c03Case{Cfg: cfg, Word: word}, 1)
+			}
+			if bd[0] && bd[1] {
+				c03Words(lenSched, cfg.TargetDB != -1, func(word []int) {
+					if len(word) > 0 {
+						one(c03Case{Cfg: cfg, Word: word}, 0)
+					}
+				})
+			}
+		}
 	}
 	for _, cfg := range reduced {
 		for _, d := range directed {
